@@ -484,8 +484,14 @@ def judge(case, model_ans, mon_ans, run):
     is_async = case['cls'] in ASYNC_CLASSES
     recs, bad = split_pre(case, run.recs)
     bad = list(run.bad) + bad
-    ambiguous = is_async and tie
-    unordered = is_async and (tie or double_fire(mrecs, case['queued'] is True))
+    # HierarchicalAsyncMachine keeps its scope stack on the machine: transitions of *different* models that
+    # run concurrently (two timeout handlers started at the same instant, each triggering an event) corrupt
+    # each other's state names ("State 'S2_S2_S3' is not a registered state").  That is a defect of
+    # concurrent nested async processing (C08/C10), not of the timeout feature; such instants are not judged.
+    hsm_conc = case['cls'] == 'HierarchicalAsyncMachine' and double_fire(mrecs, True)
+    flags['hsm_async_concurrent'] = hsm_conc
+    ambiguous = is_async and (tie or hsm_conc)
+    unordered = ambiguous or (is_async and double_fire(mrecs, case['queued'] is True))
     flags['tie'] = tie
     flags['ambiguous'] = ambiguous
     flags['unordered'] = unordered and not ambiguous
@@ -685,7 +691,7 @@ def chunk(seed, idx, n, classes):
             d = st.setdefault(key, {})
             d[val] = d.get(val, 0) + 1
         d = st.setdefault('features', {})
-        for key in sorted(f) + [k for k in ('tie', 'ambiguous', 'unordered') if flags[k]]:
+        for key in sorted(f) + [k for k in ('tie', 'ambiguous', 'unordered', 'hsm_async_concurrent') if flags[k]]:
             d[key] = d.get(key, 0) + 1
         ex.failures += fails
     return ex
